@@ -23,7 +23,7 @@ type Cell struct {
 	v    Value
 	kids []*Cell // struct fields / array elements, created lazily (nil => all zero)
 	agg  bool
-	id   int
+	id   int64
 }
 
 type Ptr struct{ c *Cell }
@@ -189,10 +189,8 @@ func zeroValue(t types.Type) Value {
 	return Poison{"zero of " + t.String()}
 }
 
-var cellCtr int
-
 func newCell(t types.Type) *Cell {
-	c := &Cell{t: t}
+	c := &Cell{t: t, id: nextCellID()}
 	if !isTimeType(t) {
 		switch under(t).(type) {
 		case *types.Struct, *types.Array:
